@@ -45,6 +45,7 @@ def run(facts, rep):
     d4_wait(facts, rep)
     d5_ring(facts, rep)
     d6_token_once(facts, rep)
+    d6_end_of_input_mark(facts, rep)
 
 
 def d1_lock(facts, rep):
@@ -430,3 +431,82 @@ def d6_token_once(facts, rep):
                    'serial_in_order filters then process the items in a different order than the first one: ' + wit,
                    ln=fn.nodes[sx].get('ln'), key_extra=str(fn.nodes[sx].get('ln')))
     rep.floor('D6', 3, 'stores to task_info::my_token')
+
+
+def d6_end_of_input_mark(facts, rep):
+    """A parallel input filter whose items may be null (int 0, a null pointer) tells "end of input" from a legitimate null item by
+    a THREAD-LOCAL mark that flow_control::stop() raises (input_buffer::end_of_input_tls).  The body of the filter may wait for
+    nested work, and the same thread can then run the NEXT invocation of the input filter inside that wait; if that one stops
+    the pipeline, the mark is on the thread when the outer invocation returns its legitimate null item - which is then taken for
+    the end-of-input signal and dropped ("every item produced by the first filter passes through every later filter").  A
+    per-thread mark is only sound if the observation that acts on it also takes it off the thread.  Rule: the mark is lowered
+    (set(nullptr)) on every path on which it was observed as raised - inside the observing function or after its call."""
+    IB = R1 + 'input_buffer'
+    raisers, lowerers, observers = [], [], []
+    for fn in facts.fns.values():
+        if (fn.cls or '') != IB and not fn.q.startswith(R1 + 'stage_task') and fn.q != R1 + 'set_end_of_input':
+            continue
+        for pos, s, node, d in calls(fn):
+            if last_member(fn, node.get('obj', -1)) != 'end_of_input_tls':
+                continue
+            nm = (d or {}).get('n')
+            if nm == 'set':
+                a = node.get('a', [])
+                if a and (fn.cv(a[0]) == 0 or fn.n(fn.strip(a[0])).get('null')):
+                    lowerers.append((fn, pos))
+                else:
+                    raisers.append((fn, pos))
+            elif nm == 'get':
+                observers.append((fn, pos, s))
+    if not raisers or not observers:
+        raise AnalysisBroken('input_buffer::end_of_input_tls: raise / observation of the thread-local end-of-input mark not found')
+    lower_fns = set(f.u for f, _ in lowerers)
+
+    def lowers(g, pos, e):
+        if not isinstance(e, int) or g.nodes[e].get('k') != 'call':
+            return False
+        if any(f is g and p_ == pos for f, p_ in lowerers):
+            return True
+        return g.nodes[e].get('fn') in lower_fns
+    for ofn, opos, os_ in observers:
+        # the observing function lowers the mark itself on every path on which it saw it raised ...
+        defs = Defs(ofn)
+        seen_raised = edges_where(ofn, lambda a, truth: _observes(ofn, defs, a, os_) is not None and truth == _observes(ofn, defs, a, os_))
+        inside = bool(seen_raised) and all(every_path_passes(ofn, (ofn.blocks[b]['succ'][si], -1), lambda p_, e: lowers(ofn, p_, e))[0]
+                                           for b, si in seen_raised)
+        ok = inside
+        where = []
+        if not inside:
+            # ... or every caller does so on the edges where the observer reported "raised"
+            cs = facts.callers(ofn.u)
+            ok = bool(cs)
+            for g, cpos, cs_ in cs:
+                e_true = edges_where(g, lambda a, truth, g=g, cs_=cs_: truth and cs_ in g.subtree(a))
+                if not e_true:
+                    ok = False
+                    where.append('%s: the result is not tested' % g.p.split('::')[-1])
+                    continue
+                for b, si in e_true:
+                    # (may, not must: the observation sits in a compound condition whose other atoms - "may the item be null at
+                    # all" - are typically tested again around the lowering; such correlated tests are not tracked here)
+                    reached, _, _ = g.walk((g.blocks[b]['succ'][si], -1))
+                    if not any(lowers(g, q, g.blocks[q[0]]['e'][q[1]]) for q in reached):
+                        ok = False
+                        where.append('%s (line %s)' % (g.p.split('::')[-2] + '::' + g.p.split('::')[-1], g.nodes[cs_].get('ln')))
+        rep.ob('D6', 'K3', ofn, 'the thread-local end-of-input mark is lowered wherever it was observed as raised', ok,
+               'the mark raised by flow_control::stop() stays on the thread (%s): a nested invocation of the input filter that stops the '
+               'pipeline makes the legitimate null item of the outer invocation look like the end-of-input signal - the item is dropped'
+               % (', '.join(sorted(set(where))) or 'nothing ever lowers it'), key_extra='eoi-mark')
+
+
+def _observes(fn, defs, a, obs_node):
+    """does condition atom a test the value read by obs_node?  returns the truth value that means "raised" (non-null) or None"""
+    n = fn.n(fn.strip(a))
+    if fn.strip(a) == obs_node or obs_node in fn.subtree(fn.strip(a)):
+        if n.get('k') == 'binop' and n['op'] in ('!=', '=='):
+            other = n['r'] if obs_node in fn.subtree(n['l']) else n['l']
+            if fn.cv(other) == 0 or fn.n(fn.strip(other)).get('null'):
+                return n['op'] == '!='
+            return None
+        return True
+    return None
